@@ -24,7 +24,7 @@ INVS = ['PrepareIffAdmissible', 'PrepareIsRewrite', 'RouteIsBind', 'FormsSelectP
 def model(check, scratch, names, maxnamed, maxsel, tag):
     d = scratch.sub('modifiers-model')
     cfg = tlc.write_cfg(d + '/Modifiers.cfg', spec='Spec', constants=dict(Names=set(names), MaxNamed=maxnamed, MaxSel=maxsel), invariants=INVS)
-    r = tlc.run_tlc('Modifiers', cfg, scratch, workers=tlc.NCPU, timeout=3000, xmx='12g')
+    r = tlc.run_tlc('Modifiers', cfg, scratch, workers=tlc.NCPU, timeout=3000, xmx='12g', coverage=True)
     check.add_model_run(tag, r)
     if r.invariants_violated:
         check.error('Modifiers model: invariant(s) violated: %s\n%s' % (r.invariants_violated, r.out[-1500:]))
